@@ -100,7 +100,8 @@ def _template(seed, shape, margin, sigma):
     from scipy import ndimage as ndi
     r = np.random.default_rng(seed)
     a = np.zeros(shape)
-    inner = tuple(slice(margin, s - margin) for s in shape)
+    mg = margin if isinstance(margin, (list, tuple)) else [margin] * len(shape)
+    inner = tuple(slice(int(k), s - int(k)) for k, s in zip(mg, shape))
     a[inner] = r.normal(size=a[inner].shape)
     return ndi.gaussian_filter(a, sigma, mode="constant").astype(np.float32)
 
@@ -123,6 +124,9 @@ def run_case(inp):
     m = tuple(float(x) for x in inp["max_shifts"])
     d = np.array(inp["d"], dtype=float)
     margin = int(np.ceil(max(m))) + 3
+    if inp.get("margin"):
+        # thin boxes: keep the density clear of the faces by the displacement itself, per axis
+        margin = [int(np.ceil(abs(x))) + int(inp["margin"]) for x in d]
     tmpl = _template(inp["seed"], shape, margin, inp["sigma"])
     if float(np.abs(tmpl).max()) == 0.0:
         return []
@@ -239,6 +243,12 @@ def oracle(rng, thorough, deep=False, hints=None):
                               seed=int(rng.integers(0, 10 ** 6)), sigma=1.0, cutoff=None, tilt=[-60, 60], mask=None,
                               quat=Rotation.random(random_state=int(rng.integers(0, 1000))).as_quat().tolist(),
                               via="align", history=3))
+    # a box of the minimal thickness along one axis with a search range wider than half of it (valid: max_shifts < 2*box)
+    for it, (shape, m3, d) in enumerate([([8, 20, 20], [5.0, 5.0, 5.0], [1.0, -2.0, 3.0]), ([20, 9, 16], [3.0, 6.0, 3.0], [-2.0, 1.0, 0.0]),
+                                         ([18, 18, 8], [4.0, 4.0, 7.0], [0.0, 3.0, -1.0])]):
+        for mdl in ("PCC", "ZNCC"):
+            cases.append(dict(model=mdl, shape=shape, max_shifts=m3, d=d, seed=int(rng.integers(0, 10 ** 6)), sigma=0.8,
+                              cutoff=None, tilt=None, mask=None, quat=None, via="align", margin=2))
     viols, stats = [], {"by_model": {}, "by_dkind": {"integer": 0, "fractional": 0}, "samples":
                         [{"oracle_case": c} for c in cases[:2]]}
     for c in cases:
